@@ -32,7 +32,7 @@ structure Timer where
   delay : Nat          -- resolved at arming
   act : Nat            -- activation index of the owner at arming time
   seq : Nat            -- creation order of the timer task / thread
-  slot : Nat           -- index of the `after` transition among the owner's resolvable ones
+  slot : Nat           -- index of the delay key among the owner's arming ones (one timer per delay key)
   started : Bool       -- the timer task / thread has begun to wait (at the creating task's next yield)
   wseq : Nat           -- creation order of its wake-up, once started
 deriving Repr, Inhabited, DecidableEq
@@ -83,7 +83,8 @@ structure RT where
   fired : List Timer := []                    -- ghost: timers whose expiry was delivered
   started : List (Path × String × Nat) := []  -- ghost: service calls (owner, invoke id, activation)
   clean : Bool := true                        -- ghost: no rollback, no entry of an already active state
-  lt : Bool := true                           -- async: the run loop is alive (waiting in `queue.get()` when idle)
+  lt : Bool := false                          -- async: the run-loop task exists and is alive (waiting in `queue.get()` when idle);
+                                              -- created by `start()` only AFTER entry + settling, and only if still running
 deriving Inhabited
 
 /-- context of a run: engine flavour, machine, user code, timing data, interleaving handler -/
@@ -276,11 +277,20 @@ def resolveDelay (r : REnv) (key : String) : Option Nat :=
   | some n => some n
   | none => r.delays key
 
-/-- (event type, delay) of every `after` transition whose delay resolves, in arming order -/
+/-- (event type, delay) of the timers one `_schedule_state_tasks` call arms, in arming order: ONE timer per
+    delay key whose delay resolves (`for t_def in transitions[:1]`), however many guarded alternatives the
+    key lists — it carries the event type of the key's first alternative (they all share
+    `after.<delay>.<id>`; each expiry selects the first alternative whose guard passes) -/
 def afterArms (r : REnv) (after : List (String × List Trans)) : List (String × Nat) :=
   after.flatMap (fun kv => match resolveDelay r kv.1 with
     | none => []
-    | some d => kv.2.map (fun t => (t.event, d)))
+    | some d => (kv.2.take 1).map (fun t => (t.event, d)))
+
+/-- the one timer of a delay key, if the key arms one: its delay resolves and it lists a transition -/
+def armOfKey (r : REnv) (kv : String × List Trans) : Option (String × Nat) :=
+  match resolveDelay r kv.1, kv.2 with
+  | some d, t :: _ => some (t.event, d)
+  | _, _ => none
 
 def mkTimers (fl : Flavor) (p : Path) (a now base : Nat) : List (String × Nat) → Nat → List Timer
   | [], _ => []
@@ -451,15 +461,22 @@ def transientLoopRT (c : RCx) (h : Hooks) : Nat → RT → RT
       else rt
 
 -- ASYNC ------------------------------------------------------------------------------------------------
-def asyncStepRT (c : RCx) (e : Ev) (rt : RT) : RT :=
+/-- `asyncProcess` (Engine.lean) with the bookkeeping: `on_event_received`, the macrostep, `except
+    Exception: log`, and — BEHIND the `try/except/finally`, i.e. after a failed macrostep too — the
+    engine's own end-of-chain test `asyncChainEnd` (`depth_before` is read when the `try` is entered) -/
+def asyncProcessRT (c : RCx) (e : Ev) (rt : RT) : RT :=
+  let rt1 := processEventRT c (hooksAsync c.u c.m) e { rt with st := emit ("#recv:" ++ e.type) rt.st }
+  let rt2 := transientLoopRT c (hooksAsync c.u c.m) c.m.maxIterations rt1
+  { rt2 with
+    st := asyncChainEnd rt.st.raiseDepth (if rt2.st.err.isSome then { rt2.st with err := none, errors := rt2.st.errors + 1 } else rt2.st) }
+
+/-- `asyncStep` (Engine.lean) with the bookkeeping, for the dequeued entry `q` (`was_self_raised` is
+    `q.self`): chain broken ⇒ the engine's `asyncPurge`; the event in hand is dropped only if it is itself
+    a member of the chain, an event sent from OUTSIDE falls through and is processed normally -/
+def asyncStepRT (c : RCx) (q : QEv) (rt : RT) : RT :=
   if rt.st.raiseDepth > c.m.maxIterations then
-    { rt with st := { rt.st with raiseDepth := 0, queue := rt.st.queue.filter (fun q => !q.self) } }
-  else
-    let rt1 := processEventRT c (hooksAsync c.u c.m) e { rt with st := emit ("#recv:" ++ e.type) rt.st }
-    let rt2 := transientLoopRT c (hooksAsync c.u c.m) c.m.maxIterations rt1
-    if rt2.st.err.isSome then { rt2 with st := { rt2.st with err := none, errors := rt2.st.errors + 1 } }
-    else if rt2.st.raiseDepth = rt.st.raiseDepth && !(rt2.st.queue.any (·.self)) then { rt2 with st := { rt2.st with raiseDepth := 0 } }
-    else rt2
+    (if q.self then { rt with st := asyncPurge rt.st } else asyncProcessRT c q.ev { rt with st := asyncPurge rt.st })
+  else asyncProcessRT c q.ev rt
 
 def asyncDrainRT (c : RCx) : Nat → RT → RT
   | 0, rt => if rt.st.queue.isEmpty || rt.st.status ≠ "running" then rt else { rt with st := { rt.st with status := "HANG" } }
@@ -467,7 +484,7 @@ def asyncDrainRT (c : RCx) : Nat → RT → RT
     if rt.st.status ≠ "running" then rt else
     match rt.st.queue with
     | [] => rt
-    | q :: rest => asyncDrainRT c fuel (asyncStepRT c q.ev { rt with st := { rt.st with queue := rest } })
+    | q :: rest => asyncDrainRT c fuel (asyncStepRT c q { rt with st := { rt.st with queue := rest } })
 
 -- SYNC -------------------------------------------------------------------------------------------------
 def drainLoopRT (c : RCx) : Nat → RT → RT
@@ -487,6 +504,11 @@ def syncSendRT (c : RCx) (e : Ev) (rt : RT) : RT :=
   else rt
 
 -- idle interpreter / top level -------------------------------------------------------------------------
+/-- the run-loop task gets to run: it takes events until the queue is empty (it then waits in
+    `queue.get()`) or the interpreter is no longer running (`while self.status == "running"`: it ends) -/
+def loopRuns (c : RCx) (rt : RT) : RT :=
+  { (asyncDrainRT c (asyncFuel c.m) rt) with lt := decide ((asyncDrainRT c (asyncFuel c.m) rt).st.status = "running") }
+
 /-- the interpreter's task is idle: pending service tasks get to run, then the queue is drained -/
 def settle (c : RCx) : Nat → RT → RT
   | 0, rt => { rt with st := { rt.st with status := "HANG" } }
@@ -496,13 +518,14 @@ def settle (c : RCx) : Nat → RT → RT
     | .async =>
       let rt1 := startPending rt
       if rt1.st.queue.isEmpty || !rt1.lt then rt1
-      else if rt1.st.status = "running" then
-        settle c fuel { (asyncDrainRT c (asyncFuel c.m) rt1) with lt := decide ((asyncDrainRT c (asyncFuel c.m) rt1).st.status = "running") }
+      else if rt1.st.status = "running" then settle c fuel (loopRuns c rt1)
       else
-        -- the run loop was already waiting in `queue.get()` when the status changed (`_fail` right
-        -- after the error event was queued): it still takes this one event, then its loop ends
+        -- the run loop was waiting in `queue.get()` when the status changed (`_fail` right after the
+        -- error event was queued). Woken, it re-checks the status behind `get()`: the event in hand is
+        -- DISCARDED (`task_done()`, nothing is received, no `on_event_received`) and the loop ends
+        -- (`break`); whatever else is queued stays in the queue, which nothing drains any more
         match rt1.st.queue with
-        | q :: rest => settle c fuel { (asyncStepRT c q.ev { rt1 with st := { rt1.st with queue := rest } }) with lt := false }
+        | _ :: rest => { rt1 with st := { rt1.st with queue := rest }, lt := false }
         | [] => rt1
 
 def startHooks (c : RCx) : Hooks :=
@@ -515,7 +538,8 @@ def startEv (c : RCx) : Option String :=
   | .sync => none
   | .async => some "___xstate_statemachine_init___"
 
-/-- `start()` failed: the async engine cancels its run loop and reports `stopped` -/
+/-- `start()` failed (`except Exception: self.status = "stopped"; cancel the loop task if it was created;
+    raise`): no run loop exists yet at that point -/
 def startFailed (c : RCx) (r : RT) : RT :=
   match c.fl with
   | .sync => r
@@ -528,11 +552,27 @@ def startEnter (c : RCx) (rt : RT) : RT :=
   | some err => { rt1 with st := rt1.st.fail err }
   | none => rt1
 
+/-- first half of `startPending`: the timer tasks created since the last yield begin to sleep -/
+def timersSleep (rt : RT) : RT :=
+  { rt with timers := (startTimersL rt.timers rt.nextId).1, nextId := (startTimersL rt.timers rt.nextId).2 }
+
+/-- async, `if self.status == "running": self._event_loop_task = create_task(self._run_event_loop())` —
+    the engine's `asyncLoopCreated`: the run loop comes into being only HERE, after the initial entry and
+    the eventless settling, and only if nothing (an unhandled service failure, `stop()`) has ended the
+    run meanwhile; whatever was raised or sent during the entry is still in the queue. `start()` then
+    returns. The tasks created since its last yield are ahead of the new loop task: the timer tasks go to
+    sleep, the service tasks do their first hop (`sleep(0)`, which puts them BEHIND the loop task); then
+    the loop task runs for the first time (`loopRuns`: it takes what is queued; its first suspension
+    point, or the empty queue, is where those service tasks get to call their service). -/
+def loopCreated (c : RCx) (rt : RT) : RT :=
+  if rt.st.status = "running" then loopRuns c (timersSleep rt) else rt
+
 def startFinish (c : RCx) (rt : RT) : RT :=
   match c.fl with
   | .sync => drainLoopRT c c.m.maxIterations rt
-  | .async => settle c 64 rt
+  | .async => settle c 64 (loopCreated c rt)
 
+/-- `start()`: entry, then eventless settling, THEN (async: only if still running) the run loop -/
 def startRT (c : RCx) (rt : RT) : RT :=
   if (startEnter c rt).st.err.isSome then startFailed c (startEnter c rt) else
   if (transientLoopRT c (startHooks c) c.m.maxIterations (startEnter c rt)).st.err.isSome then
